@@ -151,7 +151,7 @@ def _find_bytes_with_encoded_size(target, rnd):
     return None
 
 
-def build_universe():
+def build_universe(thorough=False):
     """[(name, value, weight)] - deterministic; index = interned id; id 0 is None."""
     rnd = random.Random(606)
     U = []
@@ -195,6 +195,19 @@ def build_universe():
     add('1MB-bytes-compressible', b'ab' * 500000, 0.12)
     add('1MB-bytes-random', rnd.randbytes(1000000), 0.12)
     add('1MB-str', 'jug' * 340000, 0.08)
+    # single payloads far beyond any buffer / block size a codec layer may use (pickle hands each of them to the
+    # stream in ONE read / readinto): inside containers, so that they take the pickle branch
+    MB = 1 << 20
+    add('dict-with-17MiB-bytes', {'meta': (1, 'x'), 'blob': (b'jug-payload-\x00\xff' * (17 * MB // 14 + 1))[:17 * MB + 3]}, 0.04)
+    big_arr = np.zeros(3 * MB, dtype=np.int64)
+    big_arr[::4099] = np.arange(len(big_arr[::4099]))
+    add('list-with-24MiB-array', [big_arr, 'tail'], 0.04)
+    if thorough:
+        add('list-with-40MiB-random-bytes', [rnd.randbytes(40 * MB), 7], 0.02)
+        add('bytearray-17MiB', bytearray((b'0123456789abcde\n' * (17 * MB // 16 + 1))[:17 * MB + 1]), 0.02)
+        add('33MiB-str', 'résultat ' * (33 * MB // 10), 0.02)
+        add('arr-object-with-20MiB-bytes', np.array([b'\x01\x02' * (10 * MB), None, 3], dtype=object), 0.02)
+        add('tuple-of-two-18MiB-bytes', (b'a' * (18 * MB), b'b' * (18 * MB + 5)), 0.02)
     add('bytearray', bytearray(b'abc'))
     # containers
     add('[]', [], 2)
@@ -305,11 +318,11 @@ def build_universe():
 
 
 class Universe:
-    def __init__(self):
+    def __init__(self, thorough=False):
         self.entries = []           # dicts: name, value, weight, canon, isarr, isnone, size_enc, size_raw
         self.ids = {}
         limit = fsmod.MAX_FILESIZE_IN_PACK
-        for name, v, w in build_universe():
+        for name, v, w in build_universe(thorough):
             c = canon(v)
             if c in self.ids:
                 continue
@@ -343,14 +356,13 @@ class Universe:
                         for i in sorted(used)])
 
 
-_UNIVERSE = None
+_UNIVERSE = {}
 
 
-def universe():
-    global _UNIVERSE
-    if _UNIVERSE is None:
-        _UNIVERSE = Universe()
-    return _UNIVERSE
+def universe(thorough=False):
+    if thorough not in _UNIVERSE:
+        _UNIVERSE[thorough] = Universe(thorough)
+    return _UNIVERSE[thorough]
 
 
 # ------------------------------------------------------------------------------------------------
@@ -909,7 +921,7 @@ def run(ck):
         'dict_store without a backing file is never reopened (a new dict_store() is empty by construction)',
         'redis_store.load of a key that is not live returns None instead of raising (modelled as such; the property speaks of can_load)',
     ]
-    U = universe()
+    U = universe(ck.tier == 'thorough')
     sample_codec_hypotheses(ck, U)
     frame_cases(ck, U)
 
@@ -1023,7 +1035,7 @@ def replay(obj):
     if 'ops' not in obj or 'config' not in obj:
         print('replay: not a sequence replay:', {k: obj[k] for k in obj if k in ('kind', 'what', 'detail', 'no_longer_checks', 'case')})
         return 2
-    U = universe()
+    U = universe(obj.get('tier') == 'thorough' or any(o[0] == 'dump' and o[2] not in universe().by_name for o in obj['ops']))
     name, backend, opts = config_by_name(obj['config'])
     opts = dict(opts)
     if 'compress' in opts:
